@@ -154,7 +154,11 @@ def model(r, M=False):
         e1 = p * x ** 2 + F.sin(y) * x + v.dot(v)
         e2 = 2 * x + 3 * y + np.array([1.0, 2.0, 3.0]) @ v + 1.5
         e3 = p * x + y * y                     # d/dx is the bare Parameter
-        return dict(x=x, y=y, v=v, p=p, e1=e1, e2=e2, e3=e3)
+        from optyx import MatrixVariable
+        A = MatrixVariable("A", 2, 3)
+        # views whose NAMES other models reuse for other elements: a row slice ("A[0,:]" whatever the columns) and a reversed vector
+        e4 = A[0, 1:3].sum() * 2 + np.array([1.0, 2.0, 3.0]) @ v[::-1] + A[1, 0:2].dot(A[1, 1:3])
+        return dict(x=x, y=y, v=v, p=p, A=A, e1=e1, e2=e2, e3=e3, e4=e4)
     x = Variable("x", lb=r.choice([None, -5.0, 1.0]), ub=r.choice([None, 9.0]))
     y = Variable("y")
     v = VectorVariable("x", r.choice([2, 3, 3, 4]))
@@ -162,7 +166,13 @@ def model(r, M=False):
     e1 = r.choice([p * x ** 2 + F.sin(y) * x + v.dot(v), p * x + y, x * y + p, F.cos(x) + p * v.sum(), v.dot(v) + p * x * y])
     e2 = r.choice([2 * x + 3 * y + v.sum() + 1.5, x - y + 2.0 * v[0], 5 * x + y])
     e3 = r.choice([p * x + y * y, p * x + y ** 3, p * y + x * x])
-    return dict(x=x, y=y, v=v, p=p, e1=e1, e2=e2, e3=e3)
+    from optyx import MatrixVariable
+    A = MatrixVariable("A", 2, 3)
+    w = v if v.size == 3 else VectorVariable("x", 3)
+    e4 = r.choice([A[0, 0:2].sum() * 2 + np.array([1.0, 2.0, 3.0]) @ w[0:3] + A[1, 0:2].dot(A[1, 0:2]),
+                   A[0, 0:2].sum() + np.array([3.0, 1.0, 2.0]) @ w[:] + A[1, 1:3].sum(),
+                   A[0, :].sum() + w.sum()])
+    return dict(x=x, y=y, v=v, p=p, A=A, e1=e1, e2=e2, e3=e3, e4=e4)
 
 
 def entries(Md, solve=True):
@@ -187,6 +197,12 @@ def entries(Md, solve=True):
     out["hess"] = [float(t) for t in AD.compile_hessian(Md["e3"], V2)(pt2).reshape(-1)] + \
                   [float(t) for t in AD.compile_hessian(Md["e1"], V)(pt).reshape(-1)]
     out["dparam"] = float(C.compile_expression(AD.gradient(p * x, x), V)(pt))
+    A = Md["A"]
+    V4 = [A[i, j] for i in range(2) for j in range(3)] + [t for t in Md["e4"].get_variables() if not t.name.startswith("A[")]
+    V4 = sorted({t.name: t for t in V4}.values(), key=lambda t: t.name)
+    pt4 = np.array([0.25 + 0.5 * k for k in range(len(V4))])
+    out["views"] = [float(C.compile_expression(Md["e4"], V4)(pt4)), float(Md["e4"].evaluate({t.name: pt4[k] for k, t in enumerate(V4)}))] + \
+                   [float(t) for t in C.compile_gradient(Md["e4"], V4)(pt4)]
     out["grad_tree"] = [repr(AD.gradient(Md["e3"], w))[:200] for w in (x, y)]
     out["degree"] = [AN.compute_degree(Md["e1"]), AN.compute_degree(Md["e2"]), bool(AN.is_linear(Md["e2"])), AN.compute_degree(Md["e3"]),
                      bool(AN.is_quadratic(Md["e3"]))]
